@@ -9,6 +9,7 @@ KANI_FILES = {
     "objective": ["objective.rs"],
     "network": ["layers.rs", "network.rs"],
     "feedback": ["feedback.rs"],
+    "dense": ["dense.rs"],
     "maxpool": ["maxpool.rs"],
     "convolution": ["convolution.rs"],
     "deconvolution": ["deconvolution.rs"],
@@ -27,8 +28,10 @@ PLAN = {
         verus=["C01_conv_backward.rs", "C01_deconv_backward.rs", "C07_activations.rs"],
         kani=True,
         undecided_clauses=[
-            "max-pool routing, dense backward, soft-max x cross-entropy, reverse layer walk (Network::backward / Feedback::backward), skip "
-            "connections: units under construction or out of reach (see DESIGN.md)"],
+            "max-pool routing (Maxpool::backward) is not under contract",
+            "dense backward and soft-max x cross-entropy are bounded Kani harnesses (2->2 / 1->2, small-integer data), not proofs",
+            "the reverse layer walk (Network::backward / Feedback::backward: which gradient is handed to which layer, skip connections) "
+            "is read, not verified"],
     ),
     "C02": dict(
         title="Each layer's forward pass computes its defining operator",
